@@ -872,18 +872,13 @@ Proof.
 Qed.
 
 (** * marker metadata *)
+Lemma progeny_meta_id m : progeny_meta m = m.
+Proof. now destruct m. Qed.
 Lemma mate_meta p geno xoprob meta xc nmating nprogeny nself pc fc draws x :
-  mate p geno xoprob meta xc nmating nprogeny nself pc fc draws = Some x ->
-  let m := p_meta x in
-  vm_chrgrp m = vm_chrgrp meta /\ vm_phypos m = vm_phypos meta /\ vm_name m = vm_name meta /\ vm_genpos m = vm_genpos meta /\
-  vm_xoprob m = vm_xoprob meta /\ vm_hapgrp m = vm_hapgrp meta /\ vm_mask m = vm_mask meta /\
-  vm_chrgrp_name m = vm_chrgrp_name meta /\ vm_chrgrp_stix m = vm_chrgrp_stix meta /\
-  vm_chrgrp_spix m = vm_chrgrp_spix meta /\ vm_chrgrp_len m = vm_chrgrp_len meta /\
-  (vm_hapalt meta = None -> vm_hapref meta = None -> m = meta).
+  mate p geno xoprob meta xc nmating nprogeny nself pc fc draws = Some x -> p_meta x = meta.
 Proof.
   intros Hm. destruct (mate_Some _ _ _ _ _ _ _ _ _ _ _ _ Hm) as (nm & np & _ & _ & _ & _ & _ & _ & Hx).
-  cbn zeta in Hx. destruct Hx as (_ & _ & _ & _ & _ & _ & _ & Xmeta & _). cbn zeta. rewrite Xmeta.
-  unfold progeny_meta. cbn. repeat split. intros A B. destruct meta; cbn in *. now subst.
+  cbn zeta in Hx. destruct Hx as (_ & _ & _ & _ & _ & _ & _ & Xmeta & _). rewrite Xmeta. apply progeny_meta_id.
 Qed.
 
 Definition wit_geno : list (list (list Z)) := [[[0; 0]; [1; 1]]; [[0; 0]; [1; 1]]].
@@ -892,13 +887,10 @@ Definition wit_draws : list (list (list Q)) := [[[3 # 4; 3 # 4]; [3 # 4; 3 # 4]]
 Definition meta_none : vmeta := mkMeta None None None None None None None None None None None None None.
 Definition wit_meta : vmeta := mkMeta None None None None None None (Some [65; 67]) (Some [71; 84]) None None None None None.
 
-(** the hap-allele arrays of the parents do not reach the progeny *)
-Lemma meta_refuted : exists p geno xoprob meta xc nm np nself pc fc draws x l,
-  mate p geno xoprob meta xc nm np nself pc fc draws = Some x /\ vm_hapalt meta = Some l /\ vm_hapalt (p_meta x) = None.
-Proof.
-  exists P2, wit_geno, wit_xoprob, wit_meta, [[0; 1]%nat], (inl 1%nat), (inl 2%nat), 0%nat, 0, 0, wit_draws.
-  eexists. exists [65; 67]. split; [vm_compute; reflexivity|]. split; reflexivity.
-Qed.
+(** the hand-over used before the repair loses the hap-allele arrays of the parents *)
+Lemma meta_dropped_refuted : exists meta l, vm_hapalt meta = Some l /\ vm_hapalt (progeny_meta_dropped meta) = None /\
+  progeny_meta_dropped meta <> meta.
+Proof. exists wit_meta, [65; 67]. repeat split. discriminate. Qed.
 
 (** names crossing the 7-digit width inside a family are put out of cross-configuration order by group_taxa *)
 Lemma order_refuted : exists p geno xoprob meta xc nm np nself pc fc draws x,
